@@ -107,3 +107,15 @@ add(Contract(P + 'compile_function_body', 'fn', [('self', 'CSelf'), ('clause', '
 add(Contract(P + 'get_free_variables', 'fn', [('self', 'CSelf'), ('expr', 'HasVars')], ret='SS',
              requires=['((_ is bvpush) {bvs})'],
              ensures=['(= {result} (sdedupe (sminus {expr.variables} (bvtop {bvs}))))']))
+
+
+# ---- program level (C11): exactly one function per dictionary key, named by the key, with parameters arg1..argN ------------
+add(Contract(P + 'compile_function', 'fn', [('self', 'CSelf'), ('func', 'PK'), ('body', 'Any')], ret='FN',
+             requires=['(>= (pkarity {func}) 0)'],
+             ensures=['(= {result} (fnof {func}))'],
+             ghost={'range_map': 'argnames'}))
+add(Contract(P + 'compile_program', 'fn', [('self', 'CSelf'), ('program', 'ProgDict')], ret='FNS',
+             # A-PY-DICTORDER: items() enumerates the entries in insertion order; the keys of a dict are distinct by construction
+             requires=['(forall ((j Int)) (! (=> (and (<= 0 j) (< j (seq.len {program}))) (>= (pkarity (seq.nth {program} j)) 0)) :pattern ((seq.nth {program} j))))'],
+             ensures=['(= {result} (progfns {program} (seq.len {program})))'],
+             loops={0: LoopSpec(['(= {funcs} (progfns {program} {k}))'])}))
